@@ -52,7 +52,7 @@ func CollectAuditReportCandidates() []*types.WorkReport {
 }
 
 // GenerateValidatorAuditSeed computes the initial audit seed s0 for a validator, following Formula (17.3)-(17.4).
-// Returns the VRF output (s0) as BandersnatchVrfSignature.
+// Returns the signature s0 as BandersnatchVrfSignature.
 func GenerateValidatorAuditSeed(validatorIndex types.ValidatorIndex) (types.BandersnatchVrfSignature, error) {
 	cs := blockchain.GetInstance()
 	priorStates := cs.GetPriorStates()
@@ -79,13 +79,13 @@ func GenerateValidatorAuditSeed(validatorIndex types.ValidatorIndex) (types.Band
 		return types.BandersnatchVrfSignature{}, fmt.Errorf("failed to sign audit context: %w", err)
 	}
 
-	// Derive VRF output from signature
-	s0, err := validatorVRF.VRFIetfOutput(vrfSignature[:])
-	if err != nil {
-		return types.BandersnatchVrfSignature{}, fmt.Errorf("failed to compute VRF output: %w", err)
+	// s0 is the signature itself (17.3); its VRF output r = Y(s0) (17.7) is taken by the caller.
+	// (Returning the 32-byte output here made the conversion to the 96-byte signature type panic.)
+	if len(vrfSignature) != len(types.BandersnatchVrfSignature{}) {
+		return types.BandersnatchVrfSignature{}, fmt.Errorf("unexpected audit seed signature length %d", len(vrfSignature))
 	}
 
-	return types.BandersnatchVrfSignature(s0), nil
+	return types.BandersnatchVrfSignature(vrfSignature), nil
 }
 
 // ComputeA0ForValidator generates the initial audit assignment a0 for a given validator,
